@@ -10,9 +10,12 @@ Fixpoint lookup_lines (m : list (string * list string)) (p : string) : list stri
   match m with [] => [] | (q, l) :: r => if String.eqb p q then l else lookup_lines r p end.
 
 (* result as a byte-sorted list of "path|applies_in|applies_to" *)
-Definition eval_discover (rev_order : bool) (fs : list (string * N)) (contents : list (string * list string))
+Definition eval_discover_v (hard rev_order : bool) (fs : list (string * N)) (contents : list (string * list string))
            (origin : string) (watches explicit : list string) (excludes : option string) : string :=
   let fs' := map (fun e => (fst e, kind_of (snd e))) fs in
   let fs'' := if rev_order then rev fs' else fs' in
   show_list (fun x => x)
-    (sort_dedup (map show_dfile (from_origin gm_glob (lookup_lines contents) fs'' origin watches explicit excludes))).
+    (sort_dedup (map show_dfile (from_origin gm_glob (lookup_lines contents) hard fs'' origin watches explicit excludes))).
+
+(* the repaired code *)
+Definition eval_discover := eval_discover_v true.
